@@ -40,9 +40,9 @@ CLAIMED.update({
         text="A Byzantine peer drives the real api::Foreign of victims in seeded mid-history states with harvested, mutated and forged slates, ids of the victim's pending (incl. late-locked) transactions, and build_coinbase requests naming existing outputs; before/after snapshots of outputs, log entries and private contexts must be unchanged except for exactly one unconfirmed output plus one receive entry per accepted slate; second deliveries must be refused. Replies that are validly counter-signed (finalize succeeds, or an unaltered honest reply) are outside the statement and not judged.",
         tech="deterministic simulation: Byzantine peer on the foreign API (harvest / mutate / forge), before-after state-diff oracle"),
     "C12": dict(cat="exploration", ref="DESIGN.md §3 C12",
-        text="Wire-tap and disk-tap oracle over seeded histories (every file incl. raw LMDB pages and every emitted slate searched for seeds, mnemonics and every private context's four secret values in six encodings), seed-file password checks against an independent PBKDF2+ChaCha20-Poly1305 implementation, crash/failing-write/truncation enumeration over change_password with the requirement that some seed file still decrypts to the original seed, and per-wallet uniqueness of public nonces and excesses across slates.",
+        text="Wire-tap and disk-tap oracle over seeded histories (every file incl. raw LMDB pages and every emitted slate searched for seeds, mnemonics and every private context's four secret values in six encodings), seed-file password checks against an independent PBKDF2+ChaCha20-Poly1305 implementation, crash/failing-write/truncation enumeration over change_password and recover_from_mnemonic with the requirement that some seed file still decrypts to the original seed, and per-wallet uniqueness of public nonces and excesses across slates.",
         tech="deterministic simulation: disk/wire tap with observer-known secrets, independent seed-file decryption, crash-point enumeration over the password change, nonce-uniqueness history check",
-        note="recover_from_mnemonic interruption is exercised only through its shared seed-file write path; see DESIGN.md"),
+        ),
     "C15": dict(cat="exploration", ref="DESIGN.md §3 C15",
         text="Every output record a wallet ever commits is observed through a hook in Batch::save (counted when its LMDB batch commits, so records deleted later are seen too) across seeded multi-account histories with restarts, crashes and failing writes at persistence points; per wallet a key path may carry one output only (except the re-requested unconfirmed coinbase candidate); after a restore from seed and scan the next child index must exceed every index the simulator's own rewind finds on chain.",
         tech="deterministic simulation: committed-save observer + crash injection, path-uniqueness history oracle, restore next-path check against chain truth"),
